@@ -21,9 +21,23 @@ pub trait ExRead {
                 Err(_) => remaining(old(self)).len() < old(buf)@.len(),
             };
 }
+#[verifier::external_type_specification]
+pub struct ExSeekFrom(std::io::SeekFrom);
+
 #[verifier::external_trait_specification]
 pub trait ExSeek {
     type ExternalTraitSpecificationFor: std::io::Seek;
+    // relative forward seeks only move the cursor: what remains afterwards is what remained minus the skipped
+    // bytes; seeking past the end is allowed and leaves nothing (Cursor / File semantics). Other seeks: unspecified.
+    fn seek(&mut self, pos: std::io::SeekFrom) -> (res: std::io::Result<u64>)
+        ensures
+            match pos {
+                std::io::SeekFrom::Current(n) => (n >= 0 && res is Ok) ==>
+                    remaining(final(self)) == (if n <= remaining(old(self)).len() { remaining(old(self)).skip(n as int) } else { Seq::<u8>::empty() }),
+                _ => true,
+            };
+    fn stream_position(&mut self) -> (res: std::io::Result<u64>)
+        ensures remaining(final(self)) == remaining(old(self));
 }
 
 // a `&[u8]` used as a reader: what remains is the slice itself
